@@ -9,8 +9,10 @@ import (
 	"encoding/hex"
 	"encoding/json"
 	"fmt"
+	"strings"
 
 	"0chain.net/chaincore/client"
+	"0chain.net/chaincore/transaction"
 	"0chain.net/core/encryption"
 	"verifharness/vh"
 )
@@ -51,7 +53,7 @@ func runC47(o vh.Opts) {
 
 	// checkID: clients built through every construction path, for one key given in one accepted
 	// spelling; after each path the stored key must be the hashed key, stably.
-	checkID := func(in c47Input, scheme, pk string, sign func(hash string) string) {
+	checkID := func(in c47Input, scheme, pk string, sign func(hash string) string, toCoqID bool) {
 		ctx := context.Background()
 		fail := func(note string) {
 			mi := in
@@ -225,6 +227,64 @@ func runC47(o vh.Opts) {
 				fail(p.name + ": VerifyPublicKeyClientID accepts another key for the id")
 			}
 		}
+		// every acceptor of a (public key, client id) pair, with the id in several spellings:
+		// accepted => the id is exactly (string equality) the canonical hash of the stored key
+		if cb, err := base(); err == nil {
+			canon := encryption.Hash(cb.PublicKeyBytes)
+			other := encryption.Hash(mustHex(schemeKey(in.rand().Fork(), scheme).GetPublicKey()))
+			mixed := flipOneLetterCase(canon, in.rand())
+			spell := []struct{ name, id string }{
+				{"canonical", canon}, {"upper-case", strings.ToUpper(canon)}, {"mixed-case", mixed},
+				{"0x-prefix", "0x" + canon}, {"leading-space", " " + canon}, {"trailing-space", canon + " "},
+				{"trailing-newline", canon + "\n"}, {"truncated", canon[:len(canon)-2]}, {"extended", canon + "00"},
+				{"other-key-hash", other}, {"upper-other-key-hash", strings.ToUpper(other)},
+			}
+			accs := []struct {
+				name string
+				f    func(id string) bool
+			}{
+				{"VerifyPublicKeyClientID", func(id string) bool { return encryption.VerifyPublicKeyClientID(cb.PublicKey, id) == nil }},
+				{"Transaction.ComputeClientID", func(id string) bool {
+					t := &transaction.Transaction{}
+					t.PublicKey, t.ClientID = cb.PublicKey, id
+					return t.ComputeClientID() == nil
+				}},
+				{"Transaction.ComputeProperties", func(id string) bool {
+					t := &transaction.Transaction{}
+					t.PublicKey, t.ClientID = cb.PublicKey, id
+					return t.ComputeProperties() == nil
+				}},
+				{"Client.Validate", func(id string) bool {
+					c := cb.Clone()
+					c.ID = id
+					return c.Validate(ctx) == nil
+				}},
+			}
+			for _, a := range accs {
+				for _, sp := range spell {
+					if sp.id == canon && sp.name != "canonical" {
+						continue // the hash had no letter: not another spelling
+					}
+					var ok bool
+					if pn := safely(func() { ok = a.f(sp.id) }); pn != "" {
+						ok = false
+					}
+					rep.Count(fmt.Sprintf("id-%s-%s-%v", a.name, sp.name, ok))
+					mi := in
+					mi.Tamper = a.name + "/" + sp.name
+					if toCoqID {
+						addCase(fmt.Sprintf("(ScId %s %s %s)", vh.Str(sp.id), vh.Str(canon), vh.Bool(ok)), mi)
+					}
+					switch {
+					case ok && sp.id != canon:
+						mi.Note = fmt.Sprintf("%s accepts client id %q for a %s key whose hash is %q", a.name, sp.id, scheme, canon)
+						rep.Violate("C47:noncanonical-client-id-accepted", mi.Note, mi)
+					case !ok && sp.id == canon:
+						rep.Violate("C47:client-id-not-key-hash", a.name+" rejects the canonical hash of the key as client id", mi)
+					}
+				}
+			}
+		}
 		c3 := newC()
 		if c3.Validate(ctx) == nil {
 			fail("Client.Validate accepts an empty id")
@@ -343,13 +403,13 @@ func runC47(o vh.Opts) {
 		}
 		signer0 := w.signer(0)
 		signBLS := func(h string) string { sg, _ := signer0.Sign(h); return sg }
-		checkID(in, encryption.SignatureSchemeBls0chain, pub, signBLS)
+		checkID(in, encryption.SignatureSchemeBls0chain, pub, signBLS, toCoq && in.Index < 2)
 		// the same key in the long MIRACL wallet spelling (converted by MiraclToHerumiPK)
 		mpk := miraclPK(pub)
 		if len(mpk) != 258 || encryption.MiraclToHerumiPK(mpk) != pub {
 			rep.Violate("C47:model-shape:miracl-key", "the MIRACL spelling built by the engine does not convert back to the herumi key", in)
 		} else {
-			checkID(in, encryption.SignatureSchemeBls0chain, mpk, signBLS)
+			checkID(in, encryption.SignatureSchemeBls0chain, mpk, signBLS, toCoq && in.Index < 2)
 		}
 		rep.Case(fmt.Sprintf("%d/bls/%d", in.Seed, in.Index), genuineOK && rejected >= 3, in)
 	}
@@ -410,7 +470,7 @@ func runC47(o vh.Opts) {
 				rep.Violate("C47:malformed-signature-accepted", "ed25519 accepts a malformed signature", mi)
 			}
 		}
-		checkID(in, encryption.SignatureSchemeEd25519, k0.GetPublicKey(), func(h string) string { sg, _ := k0.Sign(h); return sg })
+		checkID(in, encryption.SignatureSchemeEd25519, k0.GetPublicKey(), func(h string) string { sg, _ := k0.Sign(h); return sg }, toCoq && in.Index < 2)
 		rep.Case(fmt.Sprintf("%d/ed/%d", in.Seed, in.Index), genuineOK && rejected >= 3, in)
 	}
 
